@@ -131,7 +131,7 @@ def applyOp (p : Pending) (s : State) : List State :=
       | some s' => [s']
       | none => [s]
     else [s]
-  | "await" => [s]
+  | "await" | "pause" => [s]
   | "dispatch" | "update" =>
     (step? fixed s (.dispatch (p.res == "ok"))).toList
   | _ => []
@@ -284,6 +284,13 @@ def specCheck (rs : Array Rec) (ops : Array OpIn) : Option SpecFail := Id.run do
       let st := if r.op == "start" then startStage rs ops j else "-"
       return some ⟨s!"C16:blocked:{r.op}:{st}",
         s!"{r.op}#{r.i} (runtime end: {st}) had not returned when the deadline passed"⟩
+    -- P1' Start returns nil only once the plugin has been configured on THAT connection
+    if r.t == "ret" && r.op == "start" && r.res == "ok" then
+      let st := startStage rs ops j
+      let configured := (rs.toList.take j).any fun x => x.t == "cfg" && x.i == r.i && x.res == "ok"
+      if !configured || st == "dropReg" || st == "dropCfg" then
+        return some ⟨"C16:start-ok-unconfigured",
+          s!"start#{r.i} (runtime end: {st}) returned nil although the plugin's Configure callback had not completed for this connection"⟩
     -- P2 wait returns
     if r.t == "ret" && r.op == "wait" && r.res == "blocked" then
       return some ⟨"C16:blocked:wait", s!"wait#{r.i} did not return although the stub had observably stopped"⟩
